@@ -597,7 +597,7 @@ public:
         }
 
         if constexpr(IsPeriodic){
-            assert(std::size(indexes) == getNbNeighborsPerLeaf());
+            assert(std::size(indexes) == static_cast<std::size_t>(upperExclusion ? getNbNeighborsPerLeaf()/2 : getNbNeighborsPerLeaf()));
         }
 
         return indexes;
